@@ -184,6 +184,17 @@ fn unsupported() -> Vec<(String, &'static str)> {
             v.push((t.replace("{}", n), "character reference beyond 32 bits or with a sign"));
         }
     }
+    // recursion reached after an entity that was already verified, in content and in an attribute value
+    for (decls, top) in [
+        ("<!ENTITY b 'x'><!ENTITY a '&b;&b;&a;'>", "a"),
+        ("<!ENTITY b 'x'><!ENTITY a '&b;&c;'><!ENTITY c '&b;&b;&a;'>", "a"),
+        ("<!ENTITY b 'x'><!ENTITY c '&b;'><!ENTITY a '&c;&b;&c;&a;'>", "a"),
+        ("<!ENTITY a '&b;&b;'><!ENTITY b '&c;&c;'><!ENTITY c '&a;'>", "a"),
+    ] {
+        v.push((format!("<!DOCTYPE r [{}]><r>&{};</r>", decls, top), "recursion behind a verified entity (content)"));
+        v.push((format!("<!DOCTYPE r [{}]><r x='&{};'/>", decls, top), "recursion behind a verified entity (attribute)"));
+        v.push((format!("<!DOCTYPE r [{}]><r/>", decls), "recursion behind a verified entity (unreferenced)"));
+    }
     let mut add = |s: &str, why: &'static str| v.push((s.to_string(), why));
     add("<!DOCTYPE r [<!ENTITY % p \"x\">]><r/>", "PE declaration");
     add("<!DOCTYPE r [<!ENTITY % p SYSTEM 'p.ent'>]><r/>", "external PE declaration");
